@@ -614,6 +614,9 @@ func (s *seqRunner[V]) freshQuery() bool {
 	r := s.r
 	var cands []int
 	for i, o := range s.pool {
+		if o.nan {
+			continue
+		}
 		switch o.kind {
 		case kArr, kLst, kSet, kStk, kQue, kCat, kMap:
 			cands = append(cands, i)
@@ -783,6 +786,9 @@ func (s *seqRunner[V]) macroAliasProbe() bool {
 	}
 	var cands []int
 	for i, o := range s.pool {
+		if o.nan {
+			continue
+		}
 		if len(options(o.kind)) > 0 {
 			cands = append(cands, i)
 			switch o.kind {
